@@ -1,5 +1,5 @@
 (* C05 — extensions decode by IANA type; GREASE and unknown types are preserved. *)
-From TlsModel Require Import Bytes Nom Values DispatchTypes Extensions Wire Strip ExtEnc ManyLemmas ExtProofs.
+From TlsModel Require Import Bytes Nom Values DispatchTypes Extensions Wire Strip ExtEnc ManyLemmas ExtProofs ExtTag ExtTagProofs.
 From TlsModel Require Import Dispatch.
 
 (* obligations over the tables regenerated from the three `match ext_type` blocks, the GREASE test and
@@ -53,6 +53,26 @@ Theorem C05_overlong : forall tbl t len content o, t < 65536 -> len < 65536 -> l
   run (dispatch_ext tbl) (mkS o (u16 t ++ u16 len ++ content)) = Incomplete (Size (len - lenN content)).
 Proof. exact dispatch_overlong. Qed.
 
+(* the extension-type tag derived from a decoded variant (impl From<&TlsExtension>, arms regenerated: T7) equals the
+   wire type; every GREASE value maps to the single Grease tag 0xfafa *)
+Theorem C05_type_tag_typed : forall e, typed e -> ext_type_of e = Some (iana_type e).
+Proof. exact ext_tag_typed. Qed.
+Theorem C05_type_tag_unknown : forall t s, ext_type_of (EUnknown t s) = Some t.
+Proof. exact ext_tag_unknown. Qed.
+Theorem C05_type_tag_grease : forall t s, ext_type_of (EGrease t s) = Some 64250.
+Proof. exact ext_tag_grease. Qed.
+
+(* each single-purpose extension parser accepts exactly its own IANA type ... *)
+Theorem C05_single_purpose_reject_other_types :
+  Forall (fun e => forall t' rest o, t' < 65536 -> t' <> fst e ->
+            run (snd e) (mkS o (u16 t' ++ rest)) = Err (mkS o (u16 t' ++ rest)) KTag) own_types.
+Proof. exact (single_purpose_reject_other_types C05_table_iana C05_grease_exact C05_tags_iana). Qed.
+(* ... and then is the generic parser, on every continuation (heartbeat additionally insists on length 1) *)
+Theorem C05_single_purpose_agree_with_generic :
+  Forall (fun e => fst e <> 15 -> forall rest o,
+            run (snd e) (mkS o (u16 (fst e) ++ rest)) = run parse_tls_extension (mkS o (u16 (fst e) ++ rest))) own_types.
+Proof. exact (single_purpose_agree_with_generic C05_table_iana C05_grease_exact C05_tags_iana). Qed.
+
 Print Assumptions C05_table_iana.
 Print Assumptions C05_client_table_agrees.
 Print Assumptions C05_server_table_agrees.
@@ -66,3 +86,8 @@ Print Assumptions C05_list.
 Print Assumptions C05_dispatchers_agree.
 Print Assumptions C05_empty_only.
 Print Assumptions C05_overlong.
+Print Assumptions C05_type_tag_typed.
+Print Assumptions C05_type_tag_unknown.
+Print Assumptions C05_type_tag_grease.
+Print Assumptions C05_single_purpose_reject_other_types.
+Print Assumptions C05_single_purpose_agree_with_generic.
